@@ -84,6 +84,53 @@ def _shift_block(bb, offL, offB, dest, target, ret_line):
     return nb
 
 
+def _fold_known_discriminants(blocks):
+    """After splicing, a helper's `match arg { Some(..) => .., None => .. }` often tests an aggregate the caller
+    built a few statements earlier (finish(Some(e)) / finish(None)).  A switch on the discriminant of a local that
+    has exactly one definition in the body, namely an enum aggregate of a known variant (possibly through plain
+    moves), can only go one way: replace it by a goto, so the infeasible arm disappears from every path analysis."""
+    defs = {}
+    for bb in blocks:
+        if bb.get("cleanup"):
+            continue
+        for st in bb["stmts"]:
+            if st["k"] == "assign":
+                l = st["lhs"][0]
+                defs.setdefault(l, []).append(st if len(st["lhs"]) == 1 else None)
+        t = bb["term"]
+        if t["k"] == "call" and t.get("dest"):
+            defs.setdefault(t["dest"][0], []).append(None)
+
+    def variant(l, depth=0):
+        ds = defs.get(l, [])
+        if len(ds) != 1 or ds[0] is None or depth > 6:
+            return None
+        rv = ds[0]["rv"]
+        if rv["k"] == "agg" and rv.get("ak") == "adt" and "vidx" in rv:
+            return rv["vidx"]
+        if rv["k"] == "use" and rv["op"].get("k") in ("copy", "move") and len(rv["op"]["p"]) == 1:
+            return variant(rv["op"]["p"][0], depth + 1)
+        return None
+
+    for bb in blocks:
+        if bb.get("cleanup"):
+            continue
+        t = bb["term"]
+        if t["k"] != "switch" or t["discr"].get("k") not in ("copy", "move") or len(t["discr"]["p"]) != 1:
+            continue
+        ds = defs.get(t["discr"]["p"][0], [])
+        if len(ds) != 1 or ds[0] is None or ds[0]["rv"]["k"] != "discr":
+            continue
+        pl = ds[0]["rv"]["p"]
+        if len(pl) != 1:
+            continue
+        v = variant(pl[0])
+        if v is None:
+            continue
+        tgt = [b_ for val, b_ in t["targets"] if val == v]
+        bb["term"] = {"k": "goto", "target": tgt[0] if tgt else t["otherwise"], "line": t.get("line", 0), "folded_switch": True}
+
+
 class Inliner:
     def __init__(self, raw_bodies, norm, no_inline):
         self.raw = {r["id"]: r for r in raw_bodies}
@@ -124,6 +171,132 @@ class Inliner:
             return None, False
         return cand, False
 
+    # ---- std combinators taking a local closure: Option::map / map_or / is_some_and / and_then / filter /
+    # unwrap_or_else / bool::then are rewritten into an explicit test of the receiver plus the closure's body,
+    # so that every analysis sees the decision the closure makes (a maintainer's `x.map_or(true, |c| ..)` is the
+    # same code as the `match` it replaces).
+    COMBINATORS = {
+        "std::option::Option::map": ("map", 1, None),
+        "std::option::Option::map_or": ("map_or", 2, 1),
+        "std::option::Option::is_some_and": ("is_some_and", 1, None),
+        "std::option::Option::is_none_or": ("is_none_or", 1, None),
+        "std::option::Option::and_then": ("and_then", 1, None),
+        "std::option::Option::filter": ("filter", 1, None),
+        "std::option::Option::unwrap_or_else": ("unwrap_or_else", 1, None),
+        "core::bool::<impl bool>::then": ("then", 1, None),
+        "std::bool::<impl bool>::then": ("then", 1, None),
+    }
+
+    def _expand_combinator(self, raw, t, bb, blocks, locals_, depth, stack, spliced):
+        f = t["fn"]
+        if f.get("k") != "def":
+            return False
+        spec = self.COMBINATORS.get(self.norm(f.get("path") or ""))
+        if spec is None or t.get("target") is None:
+            return False
+        kind, ci, di = spec
+        args = t["args"]
+        if ci >= len(args) or args[0].get("k") not in ("copy", "move"):
+            return False
+        cty = args[ci].get("t") or {}
+        if cty.get("k") != "closure" or cty.get("def") not in self.raw:
+            return False
+        callee = self.raw[cty["def"]]
+        if callee["id"] in stack or callee["id"] == raw["id"] or len(callee["blocks"]) > MAX_BLOCKS:
+            return False
+        cin = self.inline(callee, depth - 1, stack + (raw["id"],))
+        line = t.get("line", 0)
+        dest, target = t["dest"], t["target"]
+        recv = args[0]["p"]
+        unk = {"s": "?", "k": "unknown"}
+
+        def new_local(ty=None, name=None):
+            locals_.append({"ty": ty or unk, "name": name})
+            return len(locals_) - 1
+
+        def new_block(stmts, term):
+            blocks.append({"cleanup": False, "stmts": stmts, "term": term, "inl": True})
+            return len(blocks) - 1
+
+        def assign(lhs, rv):
+            return {"k": "assign", "lhs": lhs, "line": line, "rv": rv}
+
+        def use(op):
+            return {"k": "use", "op": {kk: vv for kk, vv in op.items() if kk != "t"}}
+
+        def some(op):
+            return {"k": "agg", "ak": "adt", "def": "std::option::Option", "variant": "Some", "vidx": 1, "ops": [op]}
+        none = {"k": "agg", "ak": "adt", "def": "std::option::Option", "variant": "None", "vidx": 0, "ops": []}
+        join = new_block([], {"k": "goto", "target": target, "line": line})
+
+        def splice(arg_ops, ret_place):
+            """the closure body with its parameters bound to arg_ops, returning into ret_place, then -> join"""
+            offL, offB = len(locals_), len(blocks)
+            locals_.extend(cin["locals"])
+            pre = [assign([offL + 1], use(args[ci]))]
+            for k_, op in enumerate(arg_ops):
+                if k_ < cin["argc"] - 1:
+                    pre.append(assign([offL + 2 + k_], use(op)))
+            for cb in cin["blocks"]:
+                blocks.append(_shift_block(cb, offL, offB, ret_place, join, line))
+            spliced.append(self.norm(callee["id"]))
+            return pre, offB
+
+        if kind == "then":
+            # recv is a bool: true -> Some(f()) ; false -> None
+            tmp = new_local()
+            pre, entry = splice([], [tmp])
+            wrap = new_block([assign(list(dest), some({"k": "move", "p": [tmp]}))], {"k": "goto", "target": target, "line": line})
+            # the spliced body returns into tmp and goes to join; route join -> wrap for this expansion
+            blocks[join]["term"] = {"k": "goto", "target": wrap, "line": line}
+            bt = new_block(pre, {"k": "goto", "target": entry, "line": line})
+            bf = new_block([assign(list(dest), none)], {"k": "goto", "target": target, "line": line})
+            bb["term"] = {"k": "switch", "discr": {"k": "copy", "p": list(recv)}, "targets": [[0, bf]], "otherwise": bt, "line": line,
+                          "inlined_call": self.norm(callee["id"])}
+            return True
+        d = new_local({"s": "isize", "k": "prim"})
+        pay = new_local()
+        bb["stmts"].append(assign([d], {"k": "discr", "p": list(recv)}))
+        take = assign([pay], use({"k": "move", "p": list(recv) + ["@Some", ".0"]}))
+        pay_op = {"k": "move", "p": [pay]}
+        if kind in ("map", "and_then", "map_or"):
+            if kind == "map":
+                tmp = new_local()
+                pre, entry = splice([pay_op], [tmp])
+                wrap = new_block([assign(list(dest), some({"k": "move", "p": [tmp]}))], {"k": "goto", "target": target, "line": line})
+                blocks[join]["term"] = {"k": "goto", "target": wrap, "line": line}
+            else:
+                pre, entry = splice([pay_op], list(dest))
+            bs = new_block([take] + pre, {"k": "goto", "target": entry, "line": line})
+            if kind == "map_or":
+                bn = new_block([assign(list(dest), use(args[di]))], {"k": "goto", "target": target, "line": line})
+            else:
+                bn = new_block([assign(list(dest), none)], {"k": "goto", "target": target, "line": line})
+        elif kind in ("is_some_and", "is_none_or"):
+            pre, entry = splice([pay_op], list(dest))
+            bs = new_block([take] + pre, {"k": "goto", "target": entry, "line": line})
+            bn = new_block([assign(list(dest), {"k": "use", "op": {"k": "const", "s": "true" if kind == "is_none_or" else "false",
+                                                                       "int": 1 if kind == "is_none_or" else 0}})],
+                           {"k": "goto", "target": target, "line": line})
+        elif kind == "filter":
+            keep = new_local({"s": "bool", "k": "prim"})
+            ref = new_local()
+            pre, entry = splice([{"k": "move", "p": [ref]}], [keep])
+            yes = new_block([assign(list(dest), some(pay_op))], {"k": "goto", "target": target, "line": line})
+            no = new_block([assign(list(dest), none)], {"k": "goto", "target": target, "line": line})
+            blocks[join]["term"] = {"k": "switch", "discr": {"k": "copy", "p": [keep]}, "targets": [[0, no]], "otherwise": yes, "line": line}
+            bs = new_block([take, assign([ref], {"k": "ref", "mut": False, "p": [pay]})] + pre, {"k": "goto", "target": entry, "line": line})
+            bn = new_block([assign(list(dest), none)], {"k": "goto", "target": target, "line": line})
+        elif kind == "unwrap_or_else":
+            pre, entry = splice([], list(dest))
+            bs = new_block([take, assign(list(dest), use(pay_op))], {"k": "goto", "target": target, "line": line})
+            bn = new_block(pre, {"k": "goto", "target": entry, "line": line})
+        else:
+            return False
+        bb["term"] = {"k": "switch", "discr": {"k": "copy", "p": [d]}, "targets": [[0, bn]], "otherwise": bs, "line": line,
+                      "inlined_call": self.norm(callee["id"])}
+        return True
+
     def inline(self, raw, depth=MAX_DEPTH, stack=()):
         key = raw["id"]
         if not stack and key in self.memo:
@@ -138,6 +311,8 @@ class Inliner:
                 continue
             t = bb["term"]
             if t["k"] != "call" or depth <= 0:
+                continue
+            if self._expand_combinator(raw, t, bb, blocks, locals_, depth, stack, spliced):
                 continue
             callee, is_cl = self._callee(t)
             if callee is None or callee["id"] in stack or callee["id"] == raw["id"]:
@@ -169,6 +344,8 @@ class Inliner:
                 blocks.append(_shift_block(cb, offL, offB, t["dest"], t["target"], line))
             bb["term"] = {"k": "goto", "target": offB, "line": line, "inlined_call": self.norm(callee["id"])}
             spliced.append(self.norm(callee["id"]))
+        if spliced:
+            _fold_known_discriminants(blocks)
         out = dict(raw)
         out["locals"] = locals_
         out["blocks"] = blocks
